@@ -17,13 +17,13 @@ sync)
 run)
   shift; patch=$1; shift
   cd $T/repo || exit 2
-  git checkout -- . ; git apply "$patch" || { echo "patch does not apply"; exit 2; }
+  git checkout -- . ; git clean -fdq src ; git apply "$patch" || { echo "patch does not apply"; exit 2; }
   cd $T/verif
   for c in "$@"; do
     start=$(date +%s)
     out=$(UOM_REPO=$T/repo ./check "$c" 2>&1 | grep -v "^\[check\]" | tail -6)
     echo "== $c ($(( $(date +%s) - start ))s)"; echo "$out" | cut -c1-600
   done
-  git -C $T/repo checkout -- .
+  git -C $T/repo checkout -- . ; git -C $T/repo clean -fdq src
   ;;
 esac
